@@ -1,5 +1,48 @@
-from . import devprops
+"""C03 - PAN-OS approve converges.  The quantifier of the property includes IPv6 / raw merges and several vsys:
+next to the conv families (devprops) the merge families with an explicit effective target (panos/M2: a vsys that
+already holds rules, panos/M3: two vsys) are planned by the real tool, executed on the device machine and the final
+rulebase of every targeted vsys is compared with that effective target (PanosTrace `Equivalent` on parts.merged)."""
+import json
+from . import common as C, devprops, devfam as F
+
+
+def merges(rep, bins):
+    n = 0
+    for fam in ("M2", "M3"):
+        cases, total = F.gen_cases("panos", fam, devprops.PANOS_FAMS[fam])
+        for i, c in enumerate(cases):
+            c["id"] = i + 1
+            c["safe"] = False
+        res = F.run_cases(bins, "panos", cases, "merge")
+        if sum(1 for r in res if r["rejected"]) * 2 > len(cases):
+            raise C.Broken("planner rejected most inputs of panos/%s" % fam)
+        verr, nt, ne, tl = F.validate("panos", res, tag="C03m" + fam)
+        for t in tl:
+            rep.add_states(t)
+        n += nt
+        byid = {c["id"]: c for c in cases}
+        rb = {r["id"]: r for r in res}
+        seen = set()
+        for v in verr:
+            _, tid, step, tag, detail, kf = v[:6]
+            if tag == "HARNESS":
+                raise C.Broken("replica and specification disagree (panos/%s trace %s): %s" % (fam, tid, detail))
+            cid = devprops.base_id(tid)
+            if tag not in ("C18", "EQUIV", "FIXPOINT") or (cid, tag) in seen:
+                continue
+            seen.add((cid, tag))
+            if len(seen) > 10:
+                continue
+            case = byid[cid]
+            mod = F.DIALECTS["panos"]["mod"]
+            v6, raw = mod.merge_files(json.loads(json.dumps(case)))
+            rep.known_or_violation(kf, "%s (%s): final rulebase differs from the effective (merged) target, family panos/%s\n"
+                                   "--- netspoc\n%s--- raw\n%s--- script\n%s" % (
+                                       tag, detail, fam, mod.render(case["tgt"], False), raw or "", rb[cid].get("script", "")),
+                                   {"property": "C03", "dialect": "panos", "tag": tag, "detail": detail, "case": case, "mode": "merge"})
+    rep.cov["merge_traces_validated"] = n
+    rep.cov["merge_families"] = ["panos/M2", "panos/M3"]
 
 
 def run(tier, replay=None):
-    return devprops.run("C03", tier, replay)
+    return devprops.run("C03", tier, replay, extra=merges)
